@@ -668,8 +668,24 @@ pub fn check_scan(b: &Bucket, m: &MBucket, extra: u8, what: &str) -> Result<(), 
 
 /// seek oracle (C08): presence flag, then a contiguous suffix starting at key / pred / succ.
 pub fn check_seek(b: &Bucket, m: &MBucket, key: &[u8], extra: u8, what: &str) -> Result<(), Failure> {
+    check_seek_pre(b, m, key, extra, 0, what)
+}
+
+/// As `check_seek`, on a cursor that has already yielded `pre` entries (200+ = run it to the end first).
+pub fn check_seek_pre(b: &Bucket, m: &MBucket, key: &[u8], extra: u8, pre: u8, what: &str) -> Result<(), Failure> {
     let exp = model_entries(m);
     let mut c = b.cursor();
+    if pre >= 200 {
+        let mut n = 0;
+        while c.next().is_some() && n < exp.len() + 8 {
+            n += 1;
+        }
+        let _ = c.next();
+    } else {
+        for _ in 0..pre {
+            let _ = c.next();
+        }
+    }
     let exists = c.seek(key);
     let present = m.entries.contains_key(key);
     if exists != present {
@@ -1677,6 +1693,13 @@ fn run_history_inner(
                     None
                 };
                 drop(db.take());
+                if opts.bytes_unchanged && ti % 2 == 1 {
+                    // "Setting num_pages when opening an existing database has no effect"
+                    let mut other = cfg.clone();
+                    other.num_pages = cfg.num_pages * 50 + 7;
+                    let probe = open_db(&other, &opts.path).map_err(|f| f.at(ti, None))?;
+                    drop(probe);
+                }
                 db = Some(open_db(cfg, &opts.path).map_err(|f| f.at(ti, None))?);
                 stats.reopens += 1;
                 if ti + 1 < ntx {
